@@ -1516,6 +1516,13 @@ def while_loop(cond, body, loop_vars, **kw):
         raise NoContract('while_loop does not terminate concretely')
     c.loops.append(('unroll', n))
     return state
+  if mode[0] == 'fixpoint':
+    # One execution of the real body from the entry state; if every float component of the state
+    # is unchanged (obligations), the loop returns the entry state for ANY iteration count.
+    nxt = tuple(body(*state))
+    _oblige_same(c, state, nxt, 'loop-fixpoint')
+    c.loops.append(('fixpoint', 1))
+    return state
   if mode[0] == 'tail':
     # Exit state of ANY run with >= k iterations: the last k iterations applied to an
     # arbitrary (havocked) state.  Sound over-approximation; exact facts established by the
@@ -1531,6 +1538,25 @@ def while_loop(cond, body, loop_vars, **kw):
     c.loops.append(('tail', k))
     return st
   raise NoContract('unknown loop mode %r' % (mode,))
+
+
+def _oblige_same(c, a, b, label):
+  if isinstance(a, Tensor):
+    if a.dtype.kind != 'f':
+      return
+    if a.a.shape != b.a.shape:
+      c.oblige(label + ':shape', E.FALSE, 'invariant')
+      return
+    for idx in np.ndindex(*a.a.shape):
+      c.oblige('%s%s' % (label, list(idx)), P.lift(a.a[idx]).eq(P.lift(b.a[idx])), 'invariant')
+    return
+  if isinstance(a, (tuple, list)):
+    for i, (x, y) in enumerate(zip(a, b)):
+      _oblige_same(c, x, y, '%s.%d' % (label, i))
+    return
+  if isinstance(a, dict):
+    for k in a:
+      _oblige_same(c, a[k], b[k], '%s[%s]' % (label, k))
 
 
 def _havoc(v, prefix):
